@@ -94,7 +94,8 @@ def run(ctx):
         if uu is not None and uu.size == n:
             ctx.count("lendec", n)
             want = tauLorentz * tauBeta * C_KM_S * TAU0 * (-np.log(uu))
-            r = np.where(want == 0, np.abs(lenDec), rel(lenDec, want))
+            with np.errstate(invalid="ignore"):
+                r = np.where(want == 0, np.abs(lenDec), np.where(np.isinf(want), np.where(lenDec == want, 0.0, np.inf), rel(lenDec, want)))
             bad = ~(r <= RT) | ~(lenDec >= 0)
             if bad.any():
                 i = int(np.flatnonzero(bad)[0])
@@ -106,7 +107,7 @@ def run(ctx):
         err = np.abs(altDec - wa)
         tol = 1e-9 + 1e-9 * np.abs(wa)
         ctx.track_worst("altdec_abs_km", np.nanmax(np.where(np.isfinite(wa), err / tol, 0)) * 1e-9 if n else 0, 1e-9)
-        bad = (~(err <= tol) & np.isfinite(wa)) | ~(altDec >= 0)
+        bad = (~(err <= tol) & np.isfinite(wa)) | ~(altDec >= 0) | (np.isinf(wa) & (altDec != wa))
         if bad.any():
             i = int(np.flatnonzero(bad)[0])
             fails.append(("altdec", f"altDec={altDec[i]!r} km at lenDec={lenDec[i]!r} km, beta={beta[i]!r}; explicit-vector altitude {wa[i]!r}", i))
@@ -149,7 +150,7 @@ def run(ctx):
                 try:
                     if mode == "hostile":
                         # tiny / huge uniform numbers drive the extreme energy fractions
-                        src = rngctl.cycling(np.array([5e-324, 1e-300, 1e-12, 1e-6, 0.5, 1 - 1e-6, 1 - 1e-12, 0.999999999999999]))
+                        src = rngctl.cycling(np.array([0.0, 5e-324, 1e-300, 1e-12, 1e-6, 0.5, 1 - 1e-6, 1 - 1e-12, 0.999999999999999, 1 - 2.0**-53]))
                         with rngctl.stub(src):
                             res = call_taus(tau, beta, loge)
                     else:
@@ -172,8 +173,11 @@ def run(ctx):
                 # ---- decay point
                 try:
                     if mode == "hostile":
-                        u = np.resize(np.concatenate([rngctl.HOSTILE_UNIT[1:], rng.uniform(0, 1, 50)]), n)
+                        u = np.resize(np.concatenate([rngctl.HOSTILE_UNIT, rng.uniform(0, 1, 50)]), n)
                         rng.shuffle(u)
+                        # u = 0 is an infinite decay length; together with an emergence angle of exactly 0
+                        # the altitude formula meets inf * 0 (observation O7): that double coincidence is left out
+                        u[(u == 0.0) & (beta_pristine == 0.0)] = 5e-324
                         u0 = u.copy()
                         altDec, lenDec = call_alt(eas, beta, tauBeta, tauLorentz, u)
                         if u.tobytes() != u0.tobytes():
